@@ -619,6 +619,15 @@ class PopulationBalanceModel:
         indAbove = self._netFlux[1:]*dt > psd
         self._netFlux[1:][indAbove] = psd[indAbove] / dt
 
+        #A bin can lose particles through both faces (when it contains the critical radius),
+        #    so the total leaving the bin also has to be limited to the number of particles in the bin
+        lossLeft = -self._netFlux[:-1]*dt
+        lossRight = self._netFlux[1:]*dt
+        indBoth = (lossLeft > 0) & (lossRight > 0) & (lossLeft + lossRight > psd)
+        scale = psd[indBoth] / (lossLeft[indBoth] + lossRight[indBoth])
+        self._netFlux[:-1][indBoth] *= scale
+        self._netFlux[1:][indBoth] *= scale
+
         dXdt = (self._netFlux[:-1] - self._netFlux[1:])
 
         #Find size class for nucleated particles
